@@ -4,6 +4,7 @@ import numpy as np
 from props import _discrete as D
 
 ENV_BY_TIER = {"quick": {"NUMBA_DISABLE_JIT": "1"}, "thorough": {}}
+ENV = {"XDG_CACHE_HOME": "/verif/.work/disc/cache"}
 COQ_REQ = ("lib.Num", "model.Discrete", "model.DiscreteFloat")
 TOL = 1e-9
 K5 = "K5:highest-id-not-oldest-root"
@@ -12,7 +13,10 @@ RULE = ("inputs with ignore_oldest_root=True: msprime tree sequences (2-6 contem
         "so several roots of different ages) and single trees of every shape up to 5 leaves, in their natural "
         "numbering (the oldest root has the highest id) and with the non-sample nodes renumbered at random (the "
         "highest id then usually belongs to another node); random prior grids, both probability spaces, outside "
-        "standardisation on/off. A case is non-trivial when the oldest root has a non-sample child (its messages "
+        "standardisation and cache_inside on/off, num_threads None/1(/2), numpy-typed option values (np.bool_ for "
+        "ignore_oldest_root), 20% of the multi-tree inputs with a unary chain above a local root, ~40% with vlib.gen.exotic "
+        "decorations (extra flag bits, ALL nodes renumbered so that samples are not listed first, mutation-free sites, "
+        "allele strings, populations, mutation times), 15% with tied node times. A case is non-trivial when the oldest root has a non-sample child (its messages "
         "matter); distinct by content hash."
         "About half of the inputs carry 1-3 extra mutations that sit on NO edge (above the root of the local tree; valid tskit input); the references count only mutations on edges, computed from the tables.")
 ASSUME = ["the specification side is an independent dense re-implementation of the inside/outside equations "
@@ -33,12 +37,13 @@ def gen_cases(ctx, n_multi, n_single):
             d = D.shape_to_tables(rng.choice(shapes), rng, L=rng.choice([1.0, 10.0, 1000.0]))
             d = D.canon(D.add_mutations(d, [rng.choice([0, 0, 1, 1, 2, 3]) for _ in d["edges"]], rng))
             kind = "single"
+        if kind == "multi" and rng.random() < 0.2:
+            d = D.add_unary_chain(d, rng) or d
         renum = rng.random() < 0.5
         if renum:
             d, _ = D.renumber(d, rng)
         cases.append(D.make_case(rng, d, kind=kind + ("/renumbered" if renum else "/natural"),
-                                 ignore_oldest_root=True, out_std=rng.random() < 0.5,
-                                 cache_inside=rng.random() < 0.5))
+                                 ignore_oldest_root=True, **D.random_options(rng, ctx.tier == "thorough")))
     return cases
 
 
@@ -85,9 +90,12 @@ def spec_check(ctx, case, res, stats):
 def dates(case):
     import tsdate
     ts = D.ts_from_dict(case["ts"])
-    new = tsdate.inside_outside(ts, mutation_rate=case["mu"], priors=D.make_priors(case, ts), eps=case["eps"],
-                                probability_space=case["space"], ignore_oldest_root=True,
-                                outside_standardize=bool(case.get("out_std", True)), record_provenance=False)
+    new = tsdate.inside_outside(ts, mutation_rate=D.opt(case, "mu", case["mu"]), priors=D.make_priors(case, ts),
+                                eps=D.opt(case, "eps", case["eps"]), probability_space=case["space"],
+                                ignore_oldest_root=D.opt(case, "ign", True), num_threads=case.get("num_threads"),
+                                cache_inside=D.opt(case, "cache", bool(case.get("cache_inside"))),
+                                outside_standardize=D.opt(case, "out_std", bool(case.get("out_std", True))),
+                                record_provenance=False)
     return [float(x) for x in new.nodes_time]
 
 
